@@ -363,3 +363,52 @@ Proof.
   intros a b Ha Hb. cbn in Ha, Hb.
   repeat match goal with H : _ \/ _ |- _ => destruct H as [H|H] end; try contradiction; subst; vm_compute; intros E; try reflexivity; discriminate.
 Qed.
+
+(* ---- source-translation links, persistence: ModelEvaluation.save_h5 / load_h5 (Generated/SrcEvalIO.v, configurations
+   C20_EVIO_* of harness/src_functions.py), with the helpers encode_string_array / decode_string_array and the property
+   sample_names translated too.  The translations work on the raw HDF5 content [evraw] (datasets by name, last part of
+   Model/Metrics.v); [evraw_close] is the representation map to the model's file (with the stored predictions.shape[1]). ---- *)
+From Batchie Require Import Generated.SrcEvalIO Proofs.C20SourceIO.
+
+(* what the translated save_h5 has written, read back by name, is the model's file of e, its 2-d predictions carrying
+   shape[1] = ncols.  All evaluations, all ncols. *)
+Theorem C20_model_is_source_save_h5 : forall (ncols : nat) (e : evaluation),
+  (dor w <- src_ev_save_h5 ncols e; evraw_close w) = Ok (ncols, ev_save e).
+Proof. exact src_ev_save_h5_is_model. Qed.
+Print Assumptions C20_model_is_source_save_h5.
+
+(* on EVERY raw file that holds the four datasets, the translated load_h5 is the model's ev_load when the stored shape[1]
+   of the predictions is the number of stored chain ids, and the constructor's ValueError otherwise.  No hypothesis on the
+   content. *)
+Theorem C20_model_is_source_load_h5 : forall (w : evraw) (ncols : nat) (f : eval_file),
+  evraw_close w = Ok (ncols, f) ->
+  src_ev_load_h5 w = if Nat.eqb (length (snd (fst f))) ncols then ev_load f else Err E_VALUE.
+Proof. exact src_ev_load_h5_is_model. Qed.
+Print Assumptions C20_model_is_source_load_h5.
+
+(* the codec helpers as translated are the identity on every 1-d string array, with or without elements *)
+Theorem C20_model_is_source_string_codec :
+  (forall a : list pyname, src_ev_encode_string_array a = Ok a) /\ (forall a : list bstr, src_ev_decode_string_array a = Ok a).
+Proof. exact (conj src_ev_encode_string_array_is_identity src_ev_decode_string_array_is_identity). Qed.
+Print Assumptions C20_model_is_source_string_codec.
+
+(* hence C20_eval_save_load is a theorem about the translated source: for every evaluation the constructor builds
+   (m = predictions.shape[1]), the translated load_h5 applied to what the translated save_h5 wrote returns it unchanged *)
+Theorem C20_source_eval_save_load : forall m P o ch nm e,
+  mk_eval m P o ch nm = Ok e ->
+  (dor w <- src_ev_save_h5 m e; src_ev_load_h5 w) = Ok e.
+Proof. exact src_ev_round_trip. Qed.
+Print Assumptions C20_source_eval_save_load.
+
+(* not vacuous: the evaluation with 0 experiments and 2 posterior samples (the witness of the defect repaired in /repo
+   6d95451), a square 2 x 2 one, and a file whose stored shape disagrees with its chain ids *)
+Example C20_source_eval_io_examples :
+  (dor e <- mk_eval 2 [] [] [0; 0]%Z []; dor w <- src_ev_save_h5 2 e; src_ev_load_h5 w)
+  = Ok {| ev_preds := []; ev_obs := []; ev_chains := [0; 0]%Z; ev_names := [] |}
+  /\ (dor e <- mk_eval 2 [[q 1 1; q 0 1]; [q 1 2; q 1 4]] [q 1 2; q 1 1] [0; 1]%Z [[97%Z]; [98%Z]];
+      dor w <- src_ev_save_h5 2 e; src_ev_load_h5 w)
+     = Ok {| ev_preds := [[q 1 1; q 0 1]; [q 1 2; q 1 4]]; ev_obs := [q 1 2; q 1 1]; ev_chains := [0; 1]%Z;
+             ev_names := [[97%Z]; [98%Z]] |}
+  /\ src_ev_load_h5 (evraw_of_file 3 ([], [], [0; 0]%Z, [])) = Err E_VALUE
+  /\ src_ev_load_h5 [] = Err 30%Z.
+Proof. repeat split; vm_compute; reflexivity. Qed.
